@@ -4,7 +4,7 @@
    packet to all callbacks, unsolicited value changes on the device.  [run c (init c) evs = Some (s, o)] ranges
    over ALL event lists, i.e. all interleavings of any number of user threads with the updater and dispatcher
    threads at the granularity "a thread runs until its next blocking operation", and all reply delays. *)
-From CF Require Import Common.Bytes C04.Model C04.Proofs C04.Proofs_b C04.Proofs_c C04.Proofs_d C04.Proofs_e C04.ExtModel C04.Proofs_x C04.Proofs_m C04.Examples.
+From CF Require Import Common.Bytes C04.Model C04.Proofs C04.Proofs_b C04.Proofs_c C04.Proofs_d C04.Proofs_e C04.ExtModel C04.Proofs_x C04.Proofs_m C04.Race C04.Race_proofs C04.Examples.
 Open Scope Z_scope.
 
 (* ---------------------------------------------------------------- typed writes *)
@@ -266,3 +266,32 @@ Theorem C04_misc_resolves_in_current_table : forall c s cmd name cb e,
   Some (enq (add_clo s cmd e cb) (mkReq (3, cmd :: id2 (e_id e)) cb), [OEnq (3, cmd :: id2 (e_id e))]).
 Proof. exact misc_by_name. Qed.
 Print Assumptions C04_misc_resolves_in_current_table.
+
+(* ---------------------------------------------------------------- the updater THREAD across link changes *)
+
+(* The repaired updater (F04g: requests tagged with the session counter when put, dropped after wait_lock.acquire() if
+   close() ran since), as a thread program (pc + held request) composed with issue / reply / link-down / link-up events,
+   hand-over at request_queue.get() and wait_lock.acquire().  For EVERY interleaving: a request issued in session k
+   (built from its table) only ever goes out on the link of session k; every reply in flight, and the request whose
+   pattern the lock waits for, belong to the current session, so no reply of an earlier session releases the lock or is
+   attributed to a request of a later one; and the requests on the wire are in issue order (strictly increasing issue
+   numbers: none duplicated, none overtaken), also across reconnects. *)
+Theorem C04_updater_never_crosses_sessions : forall evs s, urun fixedc u0 evs = Some s ->
+  Forall (fun w => q_sess (snd w) = fst w) (u_wire s) /\
+  Forall (fun r => q_sess r = u_sess s) (u_fly s) /\
+  (forall o, u_out s = Some o -> q_sess o = u_sess s) /\
+  Sorted.StronglySorted Z.lt (map (fun w => q_seq (snd w)) (u_wire s)).
+Proof. exact updater_sessions. Qed.
+Print Assumptions C04_updater_never_crosses_sessions.
+
+(* Before the repair: a request dequeued in session 0 while an earlier one is awaited is sent on the link of session 1. *)
+Theorem C04_stale_request_refuted : exists evs s, urun (mkRC false false) u0 evs = Some s /\
+  u_wire s = [(0, mkRq 0 0 7); (1, mkRq 0 1 5)].
+Proof. destruct ex_unrepaired as [s H]. exists ex_stale, s. exact H. Qed.
+Print Assumptions C04_stale_request_refuted.
+
+(* Known residual (F04h): with hand-over also at Crazyflie._send_lock, between the tag check and the driver call, the
+   repaired updater can still be overtaken by a complete close_link + open_link. *)
+Theorem C04_send_window_refuted : exists evs s, urun (mkRC true true) u0 evs = Some s /\ u_wire s = [(1, mkRq 0 0 5)].
+Proof. destruct ex_send_window as [s H]. exists ex_window, s. exact H. Qed.
+Print Assumptions C04_send_window_refuted.
